@@ -1,6 +1,5 @@
 (* The exact order on Python numbers (Model/Floats.v: xnum, xlt) is a strict total order on non-NaN
-   values; Python's max/min folds (Model/Values.v: pymax, pymin) are bounds of the non-NaN elements
-   whenever the FIRST element is not NaN.  Pure Z arithmetic. *)
+   values.  Pure Z arithmetic. *)
 From Coq Require Import ZArith List Bool Lia ZifyBool Arith.
 From Val Require Import Gen.ValidatorTbl Model.Bytes Model.Floats Model.Values.
 Import ListNotations.
@@ -74,51 +73,4 @@ Qed.
 Lemma xabs_ge_int : forall z t, xabs_ge (XFin z 0) t = ((t <=? z) || (z <=? - t)).
 Proof. intros. unfold xabs_ge. rewrite !xlt_int. lia. Qed.
 
-(* ---- max / min folds ---- *)
 Definition nn (v : pyval) : Prop := xis_nan (xnum_of v) = false.
-
-Lemma pymax_ub : forall l x, nn x ->
-  nn (pymax x l) /\ In (pymax x l) (x :: l) /\
-  forall y, In y (x :: l) -> nn y -> xlt (xnum_of (pymax x l)) (xnum_of y) = false.
-Proof.
-  induction l as [|a l IH]; intros x Hx; cbn [pymax fold_left].
-  - split; [exact Hx|]. split; [now left|]. intros y [<-|[]] _. apply xlt_irrefl.
-  - fold (pymax (if xgt (xnum_of a) (xnum_of x) then a else x) l).
-    set (x' := if xgt (xnum_of a) (xnum_of x) then a else x).
-    assert (Hx' : nn x').
-    { unfold x'. destruct (xgt (xnum_of a) (xnum_of x)) eqn:E; [|exact Hx]. unfold xgt in E. eapply xlt_nan_r; eauto. }
-    destruct (IH x' Hx') as (Hn & Hin & Hub). split; [exact Hn|]. split.
-    + destruct Hin as [Hin|Hin]; [|right; now right]. rewrite <- Hin. unfold x'.
-      destruct (xgt (xnum_of a) (xnum_of x)); [right; now left|now left].
-    + intros y Hy Hny. pose proof (Hub x' (or_introl eq_refl) Hx') as Hux.
-      destruct Hy as [<-|[<-|Hy]]; [| |apply Hub; [now right|exact Hny]].
-      * (* y = x *) unfold x' in *. destruct (xgt (xnum_of a) (xnum_of x)) eqn:E; [|exact Hux].
-        unfold xgt in E. destruct (xlt (xnum_of (pymax a l)) (xnum_of x)) eqn:E2; [|reflexivity].
-        rewrite (xlt_trans _ _ _ E2 E) in Hux. discriminate.
-      * (* y = a *) unfold x' in *. destruct (xgt (xnum_of a) (xnum_of x)) eqn:E; [exact Hux|].
-        unfold xgt in E. destruct (xlt (xnum_of (pymax x l)) (xnum_of a)) eqn:E2; [|reflexivity].
-        destruct (xlt_negtrans _ _ (xnum_of x) E2 Hx) as [H|H]; congruence.
-Qed.
-
-Lemma pymin_lb : forall l x, nn x ->
-  nn (pymin x l) /\ In (pymin x l) (x :: l) /\
-  forall y, In y (x :: l) -> nn y -> xlt (xnum_of y) (xnum_of (pymin x l)) = false.
-Proof.
-  induction l as [|a l IH]; intros x Hx; cbn [pymin fold_left].
-  - split; [exact Hx|]. split; [now left|]. intros y [<-|[]] _. apply xlt_irrefl.
-  - fold (pymin (if xlt (xnum_of a) (xnum_of x) then a else x) l).
-    set (x' := if xlt (xnum_of a) (xnum_of x) then a else x).
-    assert (Hx' : nn x').
-    { unfold x'. destruct (xlt (xnum_of a) (xnum_of x)) eqn:E; [|exact Hx]. eapply xlt_nan_l; eauto. }
-    destruct (IH x' Hx') as (Hn & Hin & Hlb). split; [exact Hn|]. split.
-    + destruct Hin as [Hin|Hin]; [|right; now right]. rewrite <- Hin. unfold x'.
-      destruct (xlt (xnum_of a) (xnum_of x)); [right; now left|now left].
-    + intros y Hy Hny. pose proof (Hlb x' (or_introl eq_refl) Hx') as Hux.
-      destruct Hy as [<-|[<-|Hy]]; [| |apply Hlb; [now right|exact Hny]].
-      * unfold x' in *. destruct (xlt (xnum_of a) (xnum_of x)) eqn:E; [|exact Hux].
-        destruct (xlt (xnum_of x) (xnum_of (pymin a l))) eqn:E2; [|reflexivity].
-        rewrite (xlt_trans _ _ _ E E2) in Hux. discriminate.
-      * unfold x' in *. destruct (xlt (xnum_of a) (xnum_of x)) eqn:E; [exact Hux|].
-        destruct (xlt (xnum_of a) (xnum_of (pymin x l))) eqn:E2; [|reflexivity].
-        destruct (xlt_negtrans _ _ (xnum_of x) E2 Hx) as [H|H]; congruence.
-Qed.
